@@ -82,6 +82,13 @@ def plan(tier, seed):
         out.append({"slice": "session:U3x3x2", "osh": osh, "ssh": ssh, "menu": u2,
                     "costs": [core[0], core[6]] if tier == "quick" else [core[0], core[6], core[4], core[1]],
                     "session": True, "unnamed": bool(k % 2)})
+    # 5-leaf comb on the congruent 4-leaf species comb, FOUR families on the menu {a, ab, ac, ad, abcd}, full losses dearer
+    # than segmental ones and transfers out of reach: chains of INHERIT nodes through speciations (depth 4)
+    comb5, comb4 = ((((None, None), None), None), None), (((None, None), None), None)
+    for i in range(32):
+        out.append({"slice": "U5combx4comb/congruent x {a,ab,ac,ad,abcd}", "osh": comb5, "ssh": comb4, "congruent": True,
+                    "menu": [("a",), ("a", "b"), ("a", "c"), ("a", "d"), ("a", "b", "c", "d")], "part": (i, 32),
+                    "costs": [(0, 1, 9, 2, 1)]})
     # the same history with the TOPOLOGY of the object tree edited in place between solves: one root node object is given
     # every object shape of 2..4 leaves in turn (Session.rebuild, one shard per rotation of the sequence), the inputs of each
     # shape being divided among the rotations
@@ -114,6 +121,15 @@ def run_shard(shard, tier, seed):
     sess = A.Session(O, S, labelled=True, unordered=True, unnamed=shard.get("unnamed", False)) if shard.get("session") else None
 
     def inputs():
+        if shard.get("congruent"):
+            # ONE leaf assignment: the first two object leaves in the first species leaf, every further object leaf in the next
+            # species leaf (object comb and species comb congruent: the LCA mapping is a chain of speciations under a cherry)
+            lm = {v: S.leaves[max(0, i - 1)] for i, v in enumerate(O.leaves)}
+            i_, k_ = shard["part"]
+            for idx, tup in enumerate(spaces.synteny_tuples(len(O.leaves), shard["menu"])):
+                if idx % k_ == i_:
+                    yield osh, O, lm, dict(zip(O.leaves, tup))
+            return
         if not shard.get("oshs"):
             for lm, ls in L.labelled_inputs(O, S, shard["menu"], shard.get("part")):
                 yield osh, O, lm, ls
